@@ -531,6 +531,38 @@ func mirrorBrokenChunk(c *Ctx, op string) {
 	c.Distinct(op)
 }
 
+// mirrorNoTarget: a mirror that names no target ("" — the CLI's --target left out) has nowhere to put the ware: it does
+// not report success. Recipe: "mirror-notarget <tar|zip>".
+func mirrorNoTarget(c *Ctx, op string) {
+	c.Begin(op)
+	fmtName := strings.Fields(op)[1]
+	caseCounter++
+	base := filepath.Join(c.Work, fmt.Sprintf("mnt%d", caseCounter))
+	defer rmrf(base)
+	src, wh := filepath.Join(base, "src"), filepath.Join(base, "wh")
+	os.MkdirAll(src, 0755)
+	os.MkdirAll(wh, 0755)
+	os.WriteFile(filepath.Join(src, "f"), []byte("x"), 0644)
+	os.Setenv("RIO_CACHE", filepath.Join(base, "cache"))
+	fn := funcsFor(fmtName)
+	ctx := context.Background()
+	id, err := fn.pack(ctx, api.PackType(fmtName), src, api.MustParseFilesetPackFilter(losslessPackStr), whAddr("ca", wh), rio.Monitor{})
+	c.EmitR(op, "skip", "skip")
+	if err != nil {
+		return
+	}
+	got, merr, pan := safeCall(func() (api.WareID, error) {
+		return fn.mirror(ctx, id, "", []api.WarehouseLocation{whAddr("ca", wh)}, rio.Monitor{})
+	})
+	c.H("mirror-notarget:" + resTok(got, merr, pan))
+	switch {
+	case pan != "":
+		c.PropFail("mirror-panic", "mirror without a target panicked: "+pan, op)
+	case merr == nil:
+		c.PropFail("mirror-not-served", fmt.Sprintf("Mirror(%s, target \"\") answered %s: success, and the ware was stored nowhere", id, got), op)
+	}
+}
+
 func mirrorEngine(c *Ctx) {
 	if ls := replayLines(); ls != nil {
 		for _, op := range ls {
@@ -538,6 +570,8 @@ func mirrorEngine(c *Ctx) {
 				mirrorExec(c, op)
 			} else if strings.HasPrefix(op, "mirror-brokenchunk ") {
 				mirrorBrokenChunk(c, op)
+			} else if strings.HasPrefix(op, "mirror-notarget ") {
+				mirrorNoTarget(c, op)
 			}
 		}
 		return
@@ -547,6 +581,8 @@ func mirrorEngine(c *Ctx) {
 			mirrorBrokenChunk(c, fmt.Sprintf("mirror-brokenchunk %s %s", fm, k))
 		}
 	}
+	mirrorNoTarget(c, "mirror-notarget tar")
+	mirrorNoTarget(c, "mirror-notarget zip")
 	n := 12
 	if c.Tier == "thorough" {
 		n = 200
